@@ -156,3 +156,17 @@ Proof.
   split; [unfold ex_offers; apply Forall_app; split; apply Forall_forall; intros x H; apply repeat_spec in H; subst x; cbn; lia|].
   vm_compute. reflexivity.
 Qed.
+
+(** Link between the two evaluators (oracle runs of the REAL kernels from a clean state): if
+    the model reproduces every observed readiness decision ([Exec.check_case]) then the
+    observed stream satisfies the property predicate ([Exec.holds_on]) — by the theorems above,
+    not by testing.  (For whole-component runs [holds_on] is evaluated directly on the stream.) *)
+From Akita Require Import C22.Exec C22.Link.
+Theorem c22_model_agreement_implies_property : forall tb init offers rd pg fin,
+  wfb init = true -> all_closedb init = true -> no_histb init = true ->
+  forallb (in_rangeb (s_nbg init) (s_nb init)) offers = true ->
+  table_facts tb = true ->
+  check_case (KernelCase tb init true offers rd pg fin) = true ->
+  holds_on (KernelCase tb init true offers rd pg fin) = true.
+Proof. exact kernel_agreement_implies_property. Qed.
+Print Assumptions c22_model_agreement_implies_property.
